@@ -44,6 +44,30 @@ def _merge(parts):
     return out
 
 
+def same_string(found, expected) -> bool:
+    """Two string-valued terms are equal under every assignment of the conditions they contain (conds may sit at
+    different depths: str(a if c else b) == (str(a) if c else str(b)))."""
+    import itertools
+    from .matcher_rules import cond_atoms, resolve_conds
+    if found is None:
+        return False
+    atoms = cond_atoms(("pair", found, expected))
+    if len(atoms) > 8:
+        return False
+    for bits in itertools.product([True, False], repeat=len(atoms)):
+        a = dict(zip(atoms, bits))
+        if _merge(_str_parts(resolve_conds(found, a))) != _merge(_str_parts(resolve_conds(expected, a))):
+            return False
+    return True
+
+
+def _concat(parts):
+    t = parts[0]
+    for p in parts[1:]:
+        t = ("binop", "Add", t, p)
+    return t
+
+
 def _prefix(loc):
     col = ("cond", ("cmp", "In", const("column"), loc), ("item", loc, const("column")), const(0))
     return [const("("), ("call", "str", (("item", loc, const("line")),), ()), const(":"), ("call", "str", (col,), ()), const("): ")]
@@ -66,10 +90,9 @@ def rule_messages(rep: Report, rid="C14.msg") -> None:
     kw = dict(file=EFILE, line=fi.node.lineno, function=fi.qualname)
     rep.eq(rid, "a parser error keeps its location", loc, st.ext.get((selft, "location")), **kw)
     m = _super_init_msg(tree)
-    col = ("cond", ("cmp", "In", const("column"), loc), ("item", loc, const("column")), const(0))
-    want = [const("("), ("call", "str", (("item", loc, const("line")),), ()), const(":"), ("call", "str", (col,), ()), const("): "), msg]
-    rep.eq(rid, "every error message starts with its own '(line:column): ' position (column 0 when unknown)", [fmt(x, I) for x in want],
-           [fmt(x, I) for x in _str_parts(m)] if m else None, **kw)
+    want = _concat(_prefix(loc) + [msg])
+    rep.ob(rid, "every error message starts with its own '(line:column): ' position (column 0 when unknown)", same_string(m, want), **kw,
+           expected=[fmt(x, I) for x in _merge(_str_parts(want))], found=[fmt(x, I) for x in _str_parts(m)] if m else None)
     # UnexpectedTokenException
     I, fi, tree, rv, st = _run(f"{EQ}.UnexpectedTokenException.__init__")
     rep.used_function(fi.qualname)
@@ -104,9 +127,9 @@ def rule_messages(rep: Report, rid="C14.msg") -> None:
     selft, tok, exp = ("param", p[0]), ("param", p[1]), ("param", p[2])
     kw = dict(file=EFILE, line=fi.node.lineno, function=fi.qualname)
     m = _super_init_msg(tree)
-    want = _merge(_prefix(("attr", tok, "location")) + [const("unexpected end of file, expected: "), ("call", ".join", (const(", "), exp), ())])
-    rep.eq(rid, "an unexpected-end-of-file message is '(line:col): unexpected end of file, expected: ' + the expected kinds joined by ', '",
-           [fmt(x, I) for x in want], [fmt(x, I) for x in _str_parts(m)] if m else None, **kw)
+    want = _concat(_prefix(("attr", tok, "location")) + [const("unexpected end of file, expected: "), ("call", ".join", (const(", "), exp), ())])
+    rep.ob(rid, "an unexpected-end-of-file message is '(line:col): unexpected end of file, expected: ' + the expected kinds joined by ', '", same_string(m, want), **kw,
+           expected=[fmt(x, I) for x in _merge(_str_parts(want))], found=[fmt(x, I) for x in _str_parts(m)] if m else None)
     rep.eq(rid, "an unexpected-end-of-file error is located at the EOF token (one line past the last)", ("attr", tok, "location"), st.ext.get((selft, "location")), **kw)
     # CompositeParserException keeps the list as collected
     I, fi, tree, rv, st = _run(f"{EQ}.CompositeParserException.__init__")
@@ -114,8 +137,8 @@ def rule_messages(rep: Report, rid="C14.msg") -> None:
     p = fi.params()
     kw = dict(file=EFILE, line=fi.node.lineno, function=fi.qualname)
     rep.eq(rid, "the composite error carries the collected errors themselves, in collection order", ("param", p[1]), st.ext.get((("param", p[0]), "errors")), **kw)
-    muts = [n for n, _ in nf.iter_nodes(tree) if n[0] == "mutate"]
-    rep.ob(rid, "the composite error does not reorder or drop errors", not muts, **kw, expected="no sort/pop", found=[(n[2], n[4]) for n in muts])
+    muts = [n for n, _ in nf.iter_nodes(tree) if n[0] == "mutate" and n[1] == ("param", p[1])]
+    rep.ob(rid, "the composite error does not reorder or drop errors", not muts, **kw, expected="no sort/pop on the error list", found=[(n[2], n[4]) for n in muts])
     # subclasses
     f = facts()
     root = f.cls(f"{EQ}.ParserError")
@@ -133,149 +156,94 @@ def rule_error_locations(rep: Report, rid="C04.err") -> None:
     rule_messages(rep, rid)
 
 
-def cap_threshold(test_src: ast.expr, lenvar: str):
-    """Smallest n >= 0 with test(n) true, for a comparison of len(<errors>) against a constant."""
-    for n in range(0, 40):
-        try:
-            if eval(compile(ast.Expression(test_src), "<cap>", "eval"), {"__builtins__": {}}, {lenvar: n}):
-                return n
-        except Exception:
-            return None
-    return None
-
-
 def rule_cap(rep: Report, rid="C01.cap") -> None:
     """add_error: de-duplicated by message; appended; the composite is raised as soon as the list holds 11 errors."""
-    I, fi, tree, rv, st = _run("gherkin.parser.Parser.add_error")
+    from ..frame import analyse_add_error
+    a = analyse_add_error()
+    fi, I = a["fi"], a["I"]
     rep.used_file(PFILE)
     rep.used_function(fi.qualname)
-    p = fi.params()
-    ctx_t, err = ("param", p[1]), ("param", p[2])
-    errs = ("attr", ctx_t, "errors")
     kw = dict(file=PFILE, line=fi.node.lineno, function=fi.qualname)
-    apps = [(n, c) for n, c in nf.iter_nodes(tree) if n[0] == "mutate" and n[1] == errs]
-    ok = len(apps) == 1 and apps[0][0][2] == "append" and apps[0][0][3] == (err,)
-    rep.ob(rid, "an error is collected by appending it to the context's error list (order of discovery)", ok, **kw,
-           expected="context.errors.append(error)", found=[(n[2], [fmt(a, I) for a in n[3]]) for n, _ in apps])
-    if not ok:
+    probs = {p[0]: p for p in a["problems"]}
+    rep.ob(rid, "an error is collected by appending it to the context's error list (order of discovery)", "append" not in probs, **kw,
+           expected="context.errors.append(error)", found=probs.get("append", ("", "", "as expected"))[2])
+    if "append" in probs:
         return
-    gs = nf.guards_in_ctx(apps[0][1])
-    dedup_ok = False
-    if len(gs) == 1 and gs[0][1] is False and gs[0][0][0] == "cmp" and gs[0][0][1] == "In" and gs[0][0][2] == ("call", "str", (err,), ()):
-        coll = gs[0][0][3]
-        o = I.obj(coll)
-        if isinstance(o, HList) and len(o.segs) == 1 and o.segs[0][0] == "loop":
-            lid = o.segs[0][1]
-            dedup_ok = I.loops[lid].get("iter") == errs and o.segs[0][2] == [("e", ("call", "str", (("elem", lid),), ()))] and not I.loops[lid].get("conds")
-    rep.ob(rid, "identical messages are collected once (de-duplication by str(error) against this parse's errors)", dedup_ok, **kw,
-           expected="if str(error) not in (str(e) for e in context.errors)", found=[(fmt(c, I), p2) for c, p2 in gs])
-    # the cap: a raise right after the append, guarded by len(context.errors) <cmp> const
-    raises = [(n, c) for n, c in nf.iter_nodes(tree) if n[0] == "raise"]
-    good = False
-    thr = None
-    found = None
-    for n, c in raises:
-        g2 = nf.guards_in_ctx(c)
-        extra = [x for x in g2 if x not in gs]
-        if len(extra) == 1 and extra[0][0][0] == "cmp" and extra[0][0][2] == ("call", "len", (errs,), ()) and is_const(extra[0][0][3]):
-            op = {"Gt": ">", "GtE": ">=", "Eq": "==", "Lt": "<", "LtE": "<="}.get(extra[0][0][1])
-            src = f"(n {op} {extra[0][0][3][1]})" if extra[0][1] else f"(not (n {op} {extra[0][0][3][1]}))"
-            thr = cap_threshold(ast.parse(src, mode="eval").body, "n") if op else None
-            found = src
-            o = I.obj(n[1])
-            carried = st.ext.get((n[1], "errors")) if st else None
-            e2 = None
-            for m2, _ in nf.iter_nodes(tree):
-                if m2[0] == "setattr" and m2[1] == n[1] and m2[2] == "errors":
-                    e2 = m2[3]
-            good = isinstance(o, HInst) and o.cls.name == "CompositeParserException" and e2 == errs
-    rep.ob(rid, "collecting stops with the composite error exactly when the 11th distinct error has been appended", good and thr == 11, **kw,
+    rep.ob(rid, "identical messages are collected once (de-duplication by str(error) against this parse's errors)", "dedup" not in probs, **kw,
+           expected="append only if no collected error has the same str()", found=probs.get("dedup", ("", "", "as expected"))[2])
+    cap = a.get("cap")
+    ok = cap is not None and cap["threshold"] == 11 and cap["carries_list"] and cap["exception"] == "CompositeParserException"
+    rep.ob(rid, "collecting stops with the composite error exactly when the 11th distinct error has been appended", ok, **kw,
            expected="append, then if len(context.errors) > 10: raise CompositeParserException(context.errors)",
-           found=f"raise guarded by {found} -> first satisfied at {thr} errors" if found else f"{len(raises)} raise(s), none guarded by the list length right after the append")
-    # the errors list is written only here
+           found=(f"raise guarded by {cap['guard']} -> first satisfied at {cap['threshold']} errors; carries the list: {cap['carries_list']}" if cap
+                  else f"{a['n_raises']} raise(s), none guarded by the list length right after the append"))
+    # the errors list is written only here (through any alias)
     f = facts()
     sites = 0
     for fn in f.all_functions():
         if fn.module.name == "gherkin.inout":
             continue
+        aliases = set()
         for n in ast.walk(fn.node):
-            if isinstance(n, ast.Call) and isinstance(n.func, ast.Attribute) and n.func.attr in Interp.MUTATORS and isinstance(n.func.value, ast.Attribute) \
-                    and n.func.value.attr == "errors" and not (isinstance(n.func.value.value, ast.Name) and n.func.value.value.id == "self" and fn.cls and fn.cls.name != "ParserContext"):
-                sites += 1
-                rep.ob(rid, "the collected-error list is only changed by add_error", fn.qualname == fi.qualname, file=fn.file, line=n.lineno, function=fn.qualname,
-                       expected=fi.qualname, found=fn.qualname)
+            if isinstance(n, ast.Assign) and len(n.targets) == 1 and isinstance(n.targets[0], ast.Name) and isinstance(n.value, ast.Attribute) and n.value.attr == "errors" \
+                    and not (isinstance(n.value.value, ast.Name) and n.value.value.id == "self"):
+                aliases.add(n.targets[0].id)
+        for n in ast.walk(fn.node):
+            if isinstance(n, ast.Call) and isinstance(n.func, ast.Attribute) and n.func.attr in Interp.MUTATORS:
+                v = n.func.value
+                hit = (isinstance(v, ast.Attribute) and v.attr == "errors" and not (isinstance(v.value, ast.Name) and v.value.id == "self")) or \
+                    (isinstance(v, ast.Name) and v.id in aliases)
+                if hit:
+                    sites += 1
+                    rep.ob(rid, "the collected-error list is only changed by add_error", fn.qualname == fi.qualname, file=fn.file, line=n.lineno, function=fn.qualname,
+                           expected=fi.qualname, found=fn.qualname)
     rep.floor("error list mutation sites", sites, 1)
 
 
 def rule_handle_external(rep: Report, rid="C14.wrap") -> None:
-    I, fi, tree, rv, st = _run("gherkin.parser.Parser.handle_external_error",
-                               {"gherkin.parser.Parser.add_error": lambda I_, st_, fi_, args, kw_, n, tree_: (tree_.append(("add_error", tuple(args), getattr(n, "lineno", None))), NONE)[1]})
+    from ..frame import analyse_wrapper
+    w = analyse_wrapper()
+    fi = w["fi"]
     rep.used_function(fi.qualname)
-    p = fi.params()
-    selft, ctxp, dflt, arg, act = [("param", x) for x in p[:5]]
     kw = dict(file=PFILE, line=fi.node.lineno, function=fi.qualname)
-    stop = ("attr", selft, "stop_at_first_error")
-    top = [n for n in tree if n[0] == "if"]
-    ok_shape = len(top) == 1 and nf.norm_guard(top[0][1], True)[0] == stop
-    rep.ob(rid, "the wrapper branches on stop-at-first-error only", ok_shape, **kw, expected="if self.stop_at_first_error", found=[fmt(n[1], I) for n in top])
-    if not ok_shape:
-        return
-    pol = nf.norm_guard(top[0][1], True)[1]
-    stop_tree, coll_tree = (top[0][2], top[0][3]) if pol else (top[0][3], top[0][2])
-    calls = [n for n, _ in nf.iter_nodes(stop_tree) if n[0] == "dyncall"]
-    trys = [n for n, _ in nf.iter_nodes(stop_tree) if n[0] == "try"]
-    rets = [n for n, _ in nf.iter_nodes(stop_tree) if n[0] == "return"]
-    rep.ob(rid, "stop mode: the action runs unprotected and its result is returned (the first error propagates as raised)",
-           len(calls) == 1 and calls[0][1] == act and calls[0][2] == (arg,) and not trys and len(rets) == 1, **kw,
-           expected="return action(argument)", found={"calls": len(calls), "try": len(trys)})
-    trys = [n for n in coll_tree if n[0] == "try"]
-    if len(trys) != 1:
-        rep.ob(rid, "collect mode: the action runs inside one try", False, **kw, expected="try: return action(argument)", found=len(trys))
-        return
-    t = trys[0]
-    body_calls = [n for n, _ in nf.iter_nodes(t[1]) if n[0] == "dyncall"]
-    rep.ob(rid, "collect mode: exactly the action call is protected", len(body_calls) == 1 and body_calls[0][1] == act and body_calls[0][2] == (arg,), **kw,
-           expected="action(argument)", found=len(body_calls))
-    handlers = {h[0]: h for h in t[2]}
-    rep.eq(rid, "collect mode: parser exceptions (single and composite) are caught, nothing broader", ["CompositeParserException", "ParserException"], sorted(handlers), **kw)
-    h = handlers.get("ParserException")
-    if h:
-        adds = [n for n, _ in nf.iter_nodes(h[2]) if n[0] == "add_error"]
-        ok = len(adds) == 1 and adds[0][1][1] == ctxp and adds[0][1][2][0] == "excvar"
-        rep.ob(rid, "a parser exception from a matcher/builder call becomes one collected error", ok, **kw, expected="self.add_error(context, e)", found=len(adds))
-    h = handlers.get("CompositeParserException")
-    if h:
-        adds = [(n, c) for n, c in nf.iter_nodes(h[2]) if n[0] == "add_error"]
-        ok = False
-        if len(adds) == 1:
-            loops = nf.loops_in_ctx(adds[0][1])
-            ok = len(loops) == 1 and adds[0][0][1][2] == ("elem", loops[0]) and I.loops[loops[0]].get("iter", ("x",))[0] == "attr" \
-                and I.loops[loops[0]]["iter"][2] == "errors" and not I.loops[loops[0]].get("conds")
-        rep.ob(rid, "a composite exception contributes each of its errors, in order", ok, **kw, expected="for error in e.errors: self.add_error(context, error)", found=len(adds))
-    after = [n for n in coll_tree if n[0] == "return"]
-    rep.ob(rid, "collect mode: after a collected error the wrapper returns the caller's default (no match / carry on)", len(after) == 1 and after[0][1] == dflt, **kw,
-           expected="return default_value", found=[fmt(n[1], I) for n in after])
+    probs = w["problems"]
+    claims = [("stop", "stop mode: the action runs unprotected and its result is returned (the first error propagates as raised)"),
+              ("collect", "collect mode: exactly the action call runs inside one try"),
+              ("handlers", "collect mode: parser exceptions (single and composite) are caught, nothing broader"),
+              ("single", "a parser exception from a matcher/builder call becomes one collected error"),
+              ("composite", "a composite exception contributes each of its errors, in order"),
+              ("default", "collect mode: after a collected error the wrapper returns the caller's default (no match / carry on)")]
+    for key, text in claims:
+        mine = [p for p in probs if p[0] == key]
+        rep.ob(rid, text, not mine, **kw, expected="as stated", found=[(p[1], p[2]) for p in mine] or "as expected")
 
 
 def rule_noast(rep: Report, rid="C14.noast") -> None:
-    pf = pr.parse_frame()
-    fi = pf.fi
+    from ..frame import parse_nf, is_truthy_of
+    P = parse_nf()
+    I = P.I
+    fi = P.fi
     rep.used_function(fi.qualname)
     kw = dict(file=PFILE, line=fi.node.lineno, function=fi.qualname)
-    ri = pf.index("raise_if_errors")
-    gi = pf.index("get_result")
-    ei = max([i for i, e in enumerate(pf.events) if e[0] == "end_rule"], default=-1)
-    le = pf.index("endloop")
-    r = pf.first("raise_if_errors")
-    ok = ri >= 0 and gi > ri and ri > le >= 0 and r[3] == 0 and not r[2]
-    rep.ob(rid, "after the loop, a non-empty error list raises the composite error before any result is taken from the builder", ok, **kw,
-           expected="if context.errors: raise CompositeParserException(context.errors) ... return self.get_result()", found=[e[0] for e in pf.events])
-    if r is not None:
-        ctxv = pf.ctx_var
-        rep.eq(rid, "the composite raised at the end carries this parse's error list", f"CompositeParserException({ctxv}.errors)", r[4], **kw)
-    rets = pf.all("return")
-    rep.ob(rid, "parse returns only the builder's result, after the error check", len(rets) == 1 and "get_result" in (rets[0][4] or "") and not rets[0][2], **kw,
-           expected="return self.get_result()", found=[e[4] for e in rets])
+    errs = P.ctx_attr("errors")
+    raises = [(n, c) for n, c in P.flat if n[0] == "raise" and not nf.loops_in_ctx(c)]
+    gr = P.ev("get_result")
+    er = P.ev("end_rule")
+    ok = False
+    found = {"raises": len(raises), "get_result": len(gr)}
+    if len(raises) == 1 and len(gr) == 1 and errs is not None:
+        n, c = raises[0]
+        gs = nf.guards_in_ctx(c)
+        comp = [e for e, _ in P.ev("composite") if e[2][0] == n[1]]
+        carries = bool(comp) and comp[0][2][1:2] == (errs,)
+        ok = len(gs) == 1 and gs[0][1] and is_truthy_of(gs[0][0], errs) and carries and P.index(n) < P.index(gr[0][0]) \
+            and (not er or P.index(n) > P.index(er[-1][0])) and isinstance(I.obj(n[1]), HInst) and I.obj(n[1]).cls.name == "CompositeParserException"
+        found = {"guard": [(fmt(a, I), p) for a, p in gs], "carries this parse's errors": carries}
+    rep.ob(rid, "after the loop, a non-empty error list raises the composite error (carrying this parse's list) before any result is taken from the builder", ok, **kw,
+           expected="if context.errors: raise CompositeParserException(context.errors) ... return self.get_result()", found=found)
+    rv = P.rv
+    ok = len(gr) == 1 and rv == ("result", gr[0][0][4]) and not nf.guards_in_ctx([c for n, c in P.flat if n is gr[0][0]][0][:0])
+    rep.ob(rid, "parse returns only the builder's result, after the error check", ok, **kw, expected="return self.get_result()", found=fmt(rv, I))
 
 
 def rule_stream(rep: Report, rid="C17.order") -> None:
